@@ -17,7 +17,7 @@ RULE = ("one case = one DensityMatrix model (num_visible, num_hidden, num_aux in
         "independent scales from {1e-3..30}, random signs, rescaled into the legitimate exp range). Non-trivial: "
         "all weights and all visible/hidden/auxiliary biases of the amplitude network and all weights and "
         "visible/hidden biases of the phase network non-zero; distinct by sha256 of all parameter bytes.")
-REQUIRED = ["rho_entries_vs_purification", "paired_entries_compared", "scalar_pairs_compared",
+REQUIRED = ["states_used_before_with_other_parameters", "held_results_rechecked", "rho_entries_vs_purification", "paired_entries_compared", "scalar_pairs_compared",
             "psd_checks", "diag_entries_compared", "float_sanitizer_ops"]
 ANCHOR_FILES = ["qucumber/nn_states/density_matrix.py", "qucumber/rbm/purification_rbm.py"]
 REACH = [
@@ -65,7 +65,15 @@ def build(case):
 def run_case(case, ctx):
     rng, am, ph = build(case)
     nv, nh, na = case["nv"], case["nh"], case["na"]
-    st = gen.make_state("mixed", am, ph)
+    if case["rep"] % 2:
+        def warm(s_):
+            sp_ = s_.generate_hilbert_space()
+            s_.rho(sp_, sp_), s_.rho(sp_[0], sp_[-1]), s_.rho(sp_, sp_, expand=False), s_.probability(sp_), s_.normalization(sp_)
+        st, how = gen.make_state_used(rng, "mixed", am, ph, warm)
+        ctx.count("states_used_before_with_other_parameters")
+        ctx.seen("parameter_change_idioms", how)
+    else:
+        st = gen.make_state("mixed", am, ph)
     V = R.space(nv)
     N = len(V)
     sp = ctx.lib("generate_hilbert_space", st.generate_hilbert_space)
@@ -164,6 +172,9 @@ def run_case(case, ctx):
             break
         if not (torch.equal(a, sp[i]) and torch.equal(b, sp[j])):
             ctx.violation("input-mutated", "rho(1d,1d) modified its arguments")
+    ctx.count("held_results_rechecked", 3)
+    if not (np.array_equal(gen.dec(full), rl) and np.array_equal(gen.dec(paired).reshape(N, N), pl) and np.array_equal(prob.numpy(), prob_l)):
+        ctx.violation("earlier-result-clobbered", "a tensor returned by rho/probability changed during later calls")
     r1 = gen.dec(ctx.lib("rho(space)", st.rho, sp))
     if r1.shape != rl.shape or np.any(np.abs(r1 - rl) > 1e-12 * S):
         ctx.violation("default-vp-form-disagrees", "rho(space) != rho(space, space)", witness=wit)
